@@ -49,6 +49,10 @@ void harness(void)
     st[VFD_TIME_SINCE_LAST]  = (uint32_t)in_range(0, 36000000u);
     st[VFD_TERMINATION_SEND] = (uint32_t)in_bool();
     st[VFD_DISC_REASON]      = in_u8();
+    /* invariant: while a connection is open and no termination is in progress the stored disconnect reason is "connection timeout"
+       (0x08): established by adv_received() for every new connection (checked below for STEP 2, where the pre-state value is whatever
+       an earlier connection left behind); every other reason is stored immediately before the connection is closed */
+    if (pre != VFD_ST_DISCONNECTING && pre != VFD_ST_ADVERTISING) st[VFD_DISC_REASON] = 0x08;
     if (pre == VFD_ST_CHANGED) { st[VFD_WIN_SIZE] = (uint32_t)in_range(1, 8) * 1250u; st[VFD_WIN_OFFSET] = (uint32_t)in_range(0, 3200) * 1250u; }
     if (pre != VFD_ST_DISCONNECTING) st[VFD_TERMINATION_SEND] = 0;
     const unsigned flags  = (unsigned)in_range(0, 63);
@@ -93,7 +97,10 @@ void harness(void)
 
     unsigned i = 0;
     if (step == 2) {
-        if (ps == VFD_ST_CONNECTING) CHECK(ln == 1 && L[0] == VFD_CB_REQUESTED, "an accepted connect request is reported as requested, exactly once");
+        if (ps == VFD_ST_CONNECTING) {
+            CHECK(ln == 1 && L[0] == VFD_CB_REQUESTED, "an accepted connect request is reported as requested, exactly once");
+            CHECK(post[VFD_DISC_REASON] == 0x08, "a new connection does not inherit the disconnect reason of an earlier connection");
+        }
         else {
             CHECK(ps == VFD_ST_ADVERTISING, "a PDU that is not accepted leaves the link layer advertising");
             CHECK(ln == 0, "no callback without an accepted connect request");
@@ -124,6 +131,8 @@ void harness(void)
             CHECK(ps == VFD_ST_ADVERTISING, "LL_TERMINATE_IND ends the connection");
         if (step == 1 && st[VFD_TIME_SINCE_LAST] >= st[VFD_CONN_TIMEOUT])
             CHECK(ps == VFD_ST_ADVERTISING, "supervision timeout ends the connection");
+        if (step == 1 && pre != VFD_ST_DISCONNECTING && ps == VFD_ST_ADVERTISING && i < ln)
+            CHECK(La[i] == 0x08 || La[i] == 0x22, "a connection lost by timeout is reported closed with reason connection timeout (0x08) or response timeout (0x22)");
     }
     WITNESS();
 }
